@@ -77,6 +77,13 @@ CHECKS = {
             'translator and executor; exhaustive within that alphabet',
             'trusted: the alphabet is representative (small-scope hypothesis); fractions.Fraction; openpyxl round trip',
             'DESIGN.md section 2 C10'),
+    'C16': ('bounded-exhaustive enumeration of a decimal grid x digit counts x rounding functions x operand sources on the real '
+            'pipeline, judged by decimal.Decimal quantize',
+            'sign x 9 integer parts x every fractional digit string up to 3 (4 thorough) digits x digit counts -3..6 x ROUND / '
+            'ROUNDUP / ROUNDDOWN through the real Parser/Executor with number and digit count as overrides; the <=1 (2) digit '
+            'subset also as workbook constants and formula literals; 15-significant-digit extras with digit counts -3..15; '
+            'percent of every grid number and of the integers -2000..2000 from all three sources',
+            'trusted: decimal module; repr(double) as the decimal a double stands for', 'DESIGN.md section 2 C16'),
 }
 
 PENDING_REASON = 'check not built yet in this session; see DESIGN.md section 2 for the planned model-checking approach'
